@@ -23,6 +23,10 @@ func (x *Exec) execCall(f *Frame, i *ssa.Call) {
 		return
 	}
 	callee := c.StaticCallee()
+	if callee != nil && callee.Pkg != nil && callee.Pkg.Pkg.Path() == "sort" && (callee.Name() == "Slice" || callee.Name() == "SliceStable") {
+		x.execSortSlice(f, i)
+		return
+	}
 	var binds []Val
 	if callee == nil {
 		// call of a function value
@@ -43,6 +47,34 @@ func (x *Exec) execCall(f *Frame, i *ssa.Call) {
 	}
 	res := x.callStatic(f, callee, args, binds, c.Args, i.Pos())
 	x.bindCallResult(f, i, callee.Signature, res)
+	x.afterCall(f, callee.Name())
+}
+
+// afterCall proves and then assumes the contract's mid-function assertions placed after this call.
+func (x *Exec) afterCall(f *Frame, name string) {
+	if !f.top || x.con == nil || len(x.con.Asserts) == 0 {
+		return
+	}
+	if x.callCount == nil {
+		x.callCount = map[string]int{}
+	}
+	k := x.callCount[name]
+	x.callCount[name] = k + 1
+	for _, a := range x.con.Asserts {
+		if a.Callee != name || a.K != k {
+			continue
+		}
+		vars := x.localVars(f)
+		env := x.newEnv(vars, x.cur.clone(), x.entry)
+		x.obligeSpec(f, "assert", a.Clause, x.cur.reach, env, "")
+		x.assumeSpec(x.cur.reach, a.Clause.Expr, env, "assert "+a.Clause.Src)
+	}
+}
+
+// localVars: parameters plus the named locals visible in the current state.
+func (x *Exec) localVars(f *Frame) map[string]TV {
+	li := &loopInfo{header: f.fn.Blocks[0]}
+	return x.loopVars(f, li)
 }
 
 func (x *Exec) bindCallResult(f *Frame, i *ssa.Call, sig *types.Signature, res []Val) {
@@ -757,4 +789,79 @@ func (x *Exec) szFacts(before, after, k Term, v *Term) {
 	x.assume(x.cur.reach, mk(SBool, "(= %s (+ (- %s %s) %s))", sa, sb, old, nw))
 	x.assume(x.cur.reach, And(szBound(sa), szBound(sb), mk(SBool, "(>= %s %s)", sb, old)))
 	x.note("ghost summation sz over map[string][]byte: update and member-bound facts of a finite sum of non-negative terms; every store state fits in memory (sz <= 2^62)")
+}
+
+// execSortSlice models sort.Slice(s, less) (external, assumed): the variable holding s is rebound to a
+// permutation of s that is ordered according to the contract of the closure `less` (the closure
+// itself is verified against that contract as a function of its own).
+func (x *Exec) execSortSlice(f *Frame, i *ssa.Call) {
+	args := i.Call.Args
+	mi, ok := args[0].(*ssa.MakeInterface)
+	if !ok {
+		x.fail("sort.Slice: first argument is not a slice value converted in place")
+	}
+	ld, ok := mi.X.(*ssa.UnOp)
+	if !ok || ld.Op != token.MUL {
+		x.fail("sort.Slice: the slice must be read from a variable")
+	}
+	st, ok := mi.X.Type().Underlying().(*types.Slice)
+	if !ok || isByteSlice(mi.X.Type()) {
+		x.fail("sort.Slice on %s", mi.X.Type())
+	}
+	lv := x.addrOf(f, ld.X)
+	S := x.term(f, mi.X)
+	cl := x.val(f, args[1])
+	if cl.Fn == nil {
+		x.fail("sort.Slice: comparison is not a function literal")
+	}
+	con := x.db.Funcs[relKey(cl.Fn)]
+	if con == nil {
+		x.fail("sort.Slice: the comparison closure %s needs a contract (ensures result <==> ...)", relKey(cl.Fn))
+	}
+	var less *Expr
+	for _, e := range con.Ensures {
+		if e.Expr.Kind == EBinary && e.Expr.Name == "<==>" && e.Expr.Args[0].Kind == EIdent && e.Expr.Args[0].Name == "result" {
+			less = e.Expr.Args[1]
+		}
+	}
+	if less == nil || len(cl.Fn.Params) != 2 {
+		x.fail("sort.Slice: contract of %s must have the form ensures result <==> E(i, j)", relKey(cl.Fn))
+	}
+	es := x.tm.SortOf(st.Elem())
+	Sn := x.b.Fresh("sorted", SliceSort(es))
+	x.assume(x.cur.reach, Eq(SlLen(Sn), SlLen(S)))
+	x.sortCount++
+	pname := fmt.Sprintf("perm$%s$%d", sanitize(x.fn.Name()), x.sortCount)
+	x.db.Specs[pname] = &SpecFn{Name: pname, Params: []QVar{{Name: "i", Type: "int"}}, Ret: "int", PkgPath: x.pkg.Pkg.Path()}
+	id := func(n string) *Expr { return &Expr{Kind: EIdent, Name: n} }
+	vars := map[string]TV{"$new": {Sn, mi.X.Type()}, "$old": {S, mi.X.Type()}}
+	mkq := func(src string) *Expr {
+		e, err := ParseExpr(src)
+		if err != nil {
+			x.fail("internal: %v", err)
+		}
+		return e
+	}
+	// permutation
+	h1 := mkq(fmt.Sprintf("forall i$ int :: 0 <= i$ && i$ < len($new) ==> 0 <= %s(i$) && %s(i$) < len($new) && $new[i$] == $old[%s(i$)]", pname, pname, pname))
+	h2 := mkq(fmt.Sprintf("forall i$ int, j$ int :: 0 <= i$ && i$ < j$ && j$ < len($new) ==> %s(i$) != %s(j$)", pname, pname))
+	// ordered according to the closure's contract: for a < b, not less(b, a)
+	subst := map[string]*Expr{cl.Fn.Params[0].Name(): id("j$"), cl.Fn.Params[1].Name(): id("i$")}
+	for _, fv := range cl.Fn.FreeVars {
+		subst[fv.Name()] = id("$new")
+	}
+	body := substExpr(less, subst)
+	h3 := &Expr{Kind: EQuant, Name: "forall", Vars: []QVar{{Name: "i$", Type: "int"}, {Name: "j$", Type: "int"}},
+		Args: []*Expr{{Kind: EBinary, Name: "==>", Args: []*Expr{mkq("0 <= i$ && i$ < j$ && j$ < len($new)"), {Kind: EUnary, Name: "!", Args: []*Expr{body}}}}}}
+	iname := strings.Replace(pname, "perm$", "perminv$", 1)
+	x.db.Specs[iname] = &SpecFn{Name: iname, Params: []QVar{{Name: "i", Type: "int"}}, Ret: "int", PkgPath: x.pkg.Pkg.Path()}
+	h4 := mkq(fmt.Sprintf("forall j$ int :: 0 <= j$ && j$ < len($new) ==> 0 <= %s(j$) && %s(j$) < len($new) && %s(%s(j$)) == j$", iname, iname, pname, iname))
+	for k, h := range []*Expr{h1, h2, h3, h4} {
+		env := x.newEnv(vars, x.cur.clone(), x.entry)
+		x.addQhyp(x.cur, qhyp{mark: x.b.Mark(), guard: x.cur.reach, expr: h, env: env, src: fmt.Sprintf("sort.Slice (assumed) #%d", k)})
+	}
+	x.store(f, lv, Sn, i.Pos())
+	x.afterCall(f, "sort.Slice")
+	x.note("sort.Slice (external) is assumed to leave a permutation of its input ordered according to the contract of its comparison closure")
+	f.regs[i] = Val{}
 }
